@@ -451,6 +451,131 @@ def analyse_sparse(ctx, prop, jobs, limit, pen, tag):
                     break
 
 
+def energies_of(terms, states):
+    """vectorised diagonal energies of basis states given as uint64 (n <= 62)"""
+    M = np.array([m for m, _ in terms], dtype=np.uint64)
+    C = np.array([c for _, c in terms], dtype=float)
+    out = np.empty(len(states), dtype=float)
+    for a in range(0, len(states), 2048):
+        x = states[a:a + 2048, None] & M[None, :]
+        for sh in (32, 16, 8, 4, 2, 1):
+            x = x ^ (x >> np.uint64(sh))
+        par = (x & np.uint64(1)).astype(float)
+        out[a:a + 2048] = ((1.0 - 2.0 * par) * C[None, :]).sum(axis=1)
+    return out
+
+
+def analyse_structured(ctx, prop, jobs, limit, pen, tag):
+    """instances beyond the full-diagonal budget (up to 62 qubits): ALL states in which at most one start-time variable holds an arbitrary bit
+    pattern and every other variable a valid domain-wall value.  These contain every decodable state, so the minimum over the feasible ones is
+    exact; an undecodable state below it, or below the encoding penalty, is a counterexample (the ground state lies at or below it)."""
+    inst_json = [[list(o) for o in j] for j in jobs]
+    inp = {"inst": inst_json, "limit": limit, "pen": pen_json(pen), "structured": True}
+    other = ctx.extra.setdefault("_other", {})
+
+    def violate(p, what, observed=None, extra=None):
+        if p == prop:
+            ctx.violate(what, dict(inp, **(extra or {})), observed, key=f"{p}:{what[:70]}")
+        else:
+            other[p] = other.get(p, 0) + 1
+
+    inst, enc = build(jobs, limit, pen)
+    n = enc.n_qubits
+    if n > 62 or n < 1:
+        return
+    ctx.case(inp, True, tags=[tag, f"jobs:{len(jobs)}", "qubits:12+" if n >= 12 else f"qubits:{n}", "share0" if pen["share"] == 0 else "share>0"])
+    try:
+        terms = z_terms(enc.get_problem_hamiltonian())
+    except Exception as e:  # noqa: BLE001
+        violate("C15", "no diagonal Hamiltonian for a valid instance and limit", repr(e)[:100])
+        return
+    scale = sum(abs(c) for _, c in terms)
+    tol = 1e-9 * (1.0 + scale)
+    ops = [(ji, oi, enc._operation_start_variables[op]) for ji, job in enumerate(inst.jobs) for oi, op in enumerate(job.operations)]
+    sizes = [len(v.values) for _, _, v in ops]
+    total_valid = int(np.prod(sizes))
+    if total_valid > 60000:
+        return
+    # all valid assignments (index of the value of every variable)
+    grids = np.indices(sizes).reshape(len(sizes), -1).T  # (total_valid, n_ops)
+    base = np.zeros(len(grids), dtype=np.uint64)
+    for col, (_, _, v) in enumerate(ops):
+        k = grids[:, col].astype(np.uint64)
+        base |= ((np.uint64(1) << k) - np.uint64(1)) << np.uint64(v._qubit_start_index)
+    E_valid = energies_of(terms, base)
+    # feasibility of the decoded assignments, computed independently
+    feas = np.zeros(len(grids), dtype=bool)
+    mks = np.zeros(len(grids), dtype=int)
+    for r, row in enumerate(grids):
+        rows, pos = [], 0
+        for j in jobs:
+            rows.append([ops[pos + i][2].values[row[pos + i]] for i in range(len(j))])
+            pos += len(j)
+        pv, ov = count_violations(jobs, rows)
+        feas[r] = pv == 0 and ov == 0
+        mks[r] = makespan_of(jobs, rows)
+    if not feas.any():
+        return
+    W, Pp, Po, Pe, share = (float(pen[k]) for k in ("opt", "prec", "ovl", "enc", "share"))
+    strict = W < min(Pp, Po) or (W <= min(Pp, Po) and share < 1)
+    best_feas = float(E_valid[feas].min())
+    worst_feas = float(E_valid[feas].max())
+    if worst_feas > W + tol or best_feas < -tol:
+        violate("C01", "the energy of a feasible schedule is outside [0, optimisation weight]", {"min": best_feas, "max": worst_feas})
+    if strict and (~feas).any() and not worst_feas < float(E_valid[~feas].min()):
+        i = int(np.argmin(np.where(~feas, E_valid, np.inf)))
+        violate("C01", "a feasible state is not strictly below every infeasible state", {"feasible_max": worst_feas, "infeasible": float(E_valid[i])},
+                {"bits": format(int(base[i]), f"0{n}b")})
+    # one variable with an arbitrary pattern
+    for col, (_, _, v) in enumerate(ops):
+        w = v.n_qubits
+        if w < 2 or (2**w) * (total_valid // sizes[col]) > 150000:
+            continue
+        pats = np.array([p for p in range(2**w) if bin(p + 1).count("1") != 1], dtype=np.uint64)  # not of the form 1^k 0^*
+        if len(pats) == 0:
+            continue
+        others = np.unique(base & ~(((np.uint64(1) << np.uint64(w)) - np.uint64(1)) << np.uint64(v._qubit_start_index)))
+        states = (others[:, None] | (pats[None, :] << np.uint64(v._qubit_start_index))).ravel()
+        E = energies_of(terms, states)
+        i = int(np.argmin(E))
+        emin = float(E[i])
+        bits = format(int(states[i]), f"0{n}b")
+        if emin < Pe - tol:
+            violate("C01", "a bitstring with an undecodable start-time variable has energy below the encoding penalty", {"energy": emin, "enc": Pe}, {"bits": bits})
+        if strict and not worst_feas < emin:
+            violate("C01", "a feasible state is not strictly below every infeasible state", {"feasible_max": worst_feas, "infeasible": emin}, {"bits": bits})
+        if strict and share == 0 and emin < best_feas - tol:
+            violate("C02", "the minimum-energy basis state does not decode to a feasible schedule (an undecodable state lies below every feasible one)",
+                    {"undecodable": emin, "best_feasible": best_feas}, {"bits": bits})
+    if strict and share == 0:
+        opt = int(mks[feas].min())
+        g = int(np.argmin(np.where(feas, E_valid, np.inf)))
+        if int(mks[g]) != opt:
+            violate("C02", "the ground state's makespan is not the optimum of the instance", {"ground": int(mks[g]), "optimum": opt}, {"bits": format(int(base[g]), f"0{n}b")})
+
+
+def gen_structured_instance(rng):
+    """one machine: a longer operation and several unit operations (each its own job) — the shape in which a variable's encoding penalty has to outweigh
+    many overlap terms; occasionally two-operation jobs"""
+    k = rng.randint(2, 4)
+    long_d = rng.randint(2, 4)
+    jobs = [[(0, long_d)]] + [[(0, 1)] for _ in range(k)]
+    if rng.random() < 0.3:
+        jobs.append([(1, 1), (0, 1)])
+    total = long_d + k + (1 if len(jobs) > k + 1 else 0)
+    base = max(total, max(sum(d for _, d in j) for j in jobs))
+    # slack: the wider the window of the long operation, the further apart the walls of an invalid pattern can be
+    for slack in sorted({rng.choice([0, 1, 2, 3, 4]), 0}, reverse=True):
+        limit = base + slack
+        sizes = [limit - sum(d for _, d in j) + 1 for j in jobs for _ in j]
+        prod = 1
+        for x in sizes:
+            prod *= x
+        if prod <= 40000 and sum(x - 1 for x in sizes) <= 62:
+            return jobs, limit
+    return jobs, base
+
+
 def gen_sparse_instance(rng):
     shape = rng.randrange(3)
     if shape == 0:
@@ -505,6 +630,16 @@ def run_cluster(ctx, prop):
     # long operations: the makespan weights exceed 2^63 (two jobs of length 39 at limit 40: 4 qubits)
     for jobs, limit in [([[(0, 39)], [(1, 20), (0, 19)]], 40), ([[(0, 31)], [(1, 31)], [(0, 15), (1, 16)]], 32), ([[(0, 30), (1, 33)]], 64)]:
         analyse(ctx, prop, jobs, limit, dict(DEFAULT_PEN), "long-operations", 15)
+    # beyond the full-diagonal budget: one variable arbitrary, the others valid (tight penalties make the encoding penalty compete with overlap terms)
+    sub2 = ctx.sub_rng("structured")
+    tight = [{"enc": F(100), "ovl": F(100), "prec": F(100), "opt": F(50), "share": F(0)}, {"enc": F(100), "ovl": F(100), "prec": F(100), "opt": F(100), "share": F(0)},
+             {"enc": F(150), "ovl": F(100), "prec": F(120), "opt": F(50), "share": F(0)}, dict(DEFAULT_PEN)]
+    analyse_structured(ctx, prop, [[(0, 3)], [(0, 1)], [(0, 1)], [(0, 1)]], 10, dict(tight[0]), "structured")
+    for it in range(ctx.n(4, 40)):
+        if ctx.out_of_time():
+            break
+        jobs, limit = gen_structured_instance(sub2)
+        analyse_structured(ctx, prop, jobs, limit, dict(tight[it % len(tight)]), "structured")
     # large limits (sparse: only the basis states of feasible schedules)
     sub = ctx.sub_rng("sparse")
     for _ in range(ctx.n(3, 40)):
